@@ -58,6 +58,9 @@ EVENTS = [
     ('dcls2', 'Consider \\begin{align}x\\end{align} as in YaLafi\\xspace here.', {'pack': '', 'dcls': 'article'}, False),
     ('ru', '$x$ \\begin{proof} A \\end{proof}', {'pack': '*', 'lang': 'ru'}, False),
     ('ltinput', '\\LTinput{ymcdefs17.tex} \\zz', {'pack': ''}, False),
+    ('latinuse', '\\usepackage{babel} A \\foreignlanguage{latin}{B} \\begin{otherlanguage}{klingon} C \\end{otherlanguage} D', {'pack': '*', 'lang': 'de-DE'}, True),
+    ('latinopt', '\\usepackage[ngerman,latin]{babel} "a A \\foreignlanguage{latin}{B} C', {'pack': '*', 'lang': 'de-DE'}, True),
+    ('klingonopt', '\\documentclass[klingon]{article}\\usepackage{babel} "a A', {'pack': '*', 'lang': 'de-DE'}, True),
 ]
 LTINPUT_FILE = '\\newcommand{\\zz}{Qi}\\usepackage{xcolor}\n'
 
@@ -217,7 +220,7 @@ class C17:
         if tier == 'quick':
             # depth 3 behind the writer events (those that define, load or switch something)
             writers = [i for i, e in enumerate(EVENTS) if e[0] in ('defmac', 'glsdef', 'amsmath', 'babel', 'clsopt', 'crefdef', 'thmdef', 'redef',
-                                                                  'dcls1', 'defs', 'ltinput', 'nosp', 'enum', 'ml')]
+                                                                  'dcls1', 'defs', 'ltinput', 'nosp', 'enum', 'ml', 'latinuse', 'latinopt')]
             for a in writers:
                 for b in writers:
                     if a != b:
